@@ -35,6 +35,13 @@ CHECKS = {
   "assumed: extern contracts for io.ReadFull, encoding/hex.Decode, strconv.ParseInt, crypto/sha256.Sum256 (uninterpreted, deterministic), os.Stat/ReadFile/Open; [32]byte values compare as whole arrays. "
   "NOT decided by this check: the store side (Put then Get returns exactly the data; repair of a damaged output) — put/copyFile/putIndexEntry are not yet under contract, see C12/C11 in not_applicable",
   "contract-based deductive verification: safety and functional postconditions over go/ssa with ghost bindings of the read buffer; z3/cvc5"),
+ "C10": ("5 C10",
+  "Rely-guarantee proof over the shared entry state (done, result, ghost invocation count and returned value, mutex held-flag): the environment may take arbitrary steps allowed by the rely clause before every shared access and around every call; "
+  "every write of Do (the call of f, the store of result, the atomic store of done) is checked against the guarantee and the global invariant (done==1 implies f ran exactly once and result is its value; done==0 with a free mutex implies f has not run). "
+  "Consequences proved as obligations: f is called only under the entry's lock with invocation count 0; Do returns only with done==1, count==1 and the value f returned; Get contains no Lock/Wait call and returns nil or that value. For every interleaving, not a sample.",
+  "assumed: sync.Mutex semantics (Lock returns only when free), sync.Map gives one entry per key (package-local extern contracts), Go memory model for sync/atomic (a load that sees 1 sees the preceding plain store), sequential consistency of the modelled steps; "
+  "soundness of the rely-guarantee rule implemented in govc (interference points: every shared access and call); liveness (that Do eventually returns) is not claimed",
+  "contract-based deductive verification with rely/guarantee clauses and ghost history variables; thread-modular VCs over go/ssa discharged by z3/cvc5"),
  "C13": ("5 C13",
   "Contracts over ghost mtimes, a monotone clock and integer nanoseconds: used() leaves an existing file's mtime younger than (now - 1h) when no file operation fails; OutputFile calls it on the name it returns; "
   "trimSubdir calls os.Remove only on Join(subdir, n) for listed names n ending in -a/-d whose mtime is before the cutoff (call-site obligation) and, when nothing fails, removes every such name (loop invariant); "
